@@ -137,8 +137,9 @@ Fixpoint gunfold (k : nat) (g : graph) (n : name) : utree :=
   end.
 
 Inductive result :=
-| RErr                     (* an error: the build failed, or ("unlinked ref") the lookup found a
-                              placeholder with To == nil *)
+| RErr                     (* an error: the build failed (a field of an unsupported type) *)
+| RUnlinked                (* the error "unlinked ref": the lookup found a placeholder with To == nil,
+                              registered by a build that is still in progress (only without the lock) *)
 | RNil                     (* no error, but no schema either: the lookup found the typed nil pointer
                               that a failed build had left in To (only without the lock) *)
 | ROk (t : utree).
@@ -146,7 +147,7 @@ Inductive result :=
 (* the end of Schema: on an error the registered refs are deleted; registered = nil *)
 Definition finish_shared (res : result) (sh : shared) : shared :=
   match res with
-  | RErr => rollback sh
+  | RErr | RUnlinked => rollback sh
   | RNil | ROk _ => reset_reg sh
   end.
 
@@ -157,7 +158,7 @@ Record frame := mkFrame { f_cell : cellid; f_todo : list name; f_done : list cel
 
 Inductive pc :=
 | PEnter                          (* at schema.enter (or: no call left) *)
-| PWait                           (* inside sc.mu.Lock(), queued *)
+| PWait                           (* inside sc.mu.Lock(), blocked: the lock was held when it arrived *)
 | PLookup
 | PInsert
 | PRefLookup (stk : list frame)   (* refTo for the head of the top frame's todo *)
@@ -199,7 +200,7 @@ Definition lstep (k : nat) (g : graph) (n : name) (sh : shared) (p : pc) : share
       | Some c =>
           match cell_to sh c with
           | Some _ => (sh, inr (ROk (unfold k (heap sh) c)))
-          | None => (sh, inr (if existsb (Nat.eqb c) (failed sh) then RNil else RErr))
+          | None => (sh, inr (if existsb (Nat.eqb c) (failed sh) then RNil else RUnlinked))
           end
       | None => (sh, inl PInsert)
       end
@@ -243,7 +244,9 @@ Inductive disc := Unguarded | Guarded.
 Record state := mkState {
   s_sh : shared;
   s_lock : option tid;      (* holder of sc.mu *)
-  s_waitq : list tid;       (* goroutines queued in sc.mu.Lock(), first come first *)
+  s_waitq : list tid;       (* goroutines blocked in sc.mu.Lock(), in order of arrival: book-keeping
+                               only — the machine below lets ANY of them (or a newcomer) take a
+                               free lock; a hand-off policy (fifo_grant, ...) may consult it *)
   s_thr : list thread
 }.
 
@@ -256,17 +259,14 @@ Definition with_pc (th : thread) (p : pc) : thread := mkThread p (t_calls th) (t
 Definition finish_thread (th : thread) (res : result) : thread :=
   mkThread PEnter (tl (t_calls th)) (res :: t_results th).
 
-(* sc.mu.Unlock(): hand the lock to the first queued goroutine, which then
-   runs up to its cache.lookup hook *)
-Definition release (st : state) : state :=
-  match s_waitq st with
-  | [] => mkState (s_sh st) None [] (s_thr st)
-  | w :: q =>
-      match nth_error (s_thr st) w with
-      | Some tw => mkState (reset_reg (s_sh st)) (Some w) q (set_nth (s_thr st) w (with_pc tw PLookup))
-      | None => mkState (s_sh st) None q (s_thr st)
-      end
-  end.
+(* sc.mu.Unlock(): the lock becomes free.  Nothing is handed over: which of the blocked
+   goroutines (or which newcomer) gets the lock next is decided by the schedule alone, so
+   the statements "for all schedules" cover every lock-grant order — first come first
+   served, last come first served, barging by a running goroutine (Go's normal mode),
+   direct hand-off (Go's starvation mode; see [hstep] below) *)
+Definition release (st : state) : state := mkState (s_sh st) None (s_waitq st) (s_thr st).
+
+Definition remove_tid (t : tid) (l : list tid) : list tid := filter (fun x => negb (Nat.eqb x t)) l.
 
 Definition gstep (d : disc) (k : nat) (g : graph) (t : tid) (st : state) : state :=
   match nth_error (s_thr st) t with
@@ -276,7 +276,14 @@ Definition gstep (d : disc) (k : nat) (g : graph) (t : tid) (st : state) : state
       | [] => st                                   (* all calls made *)
       | n :: _ =>
           match t_pc th with
-          | PWait => st                            (* blocked *)
+          | PWait =>
+              (* blocked in Lock(): it takes the lock if it finds it free when it is scheduled *)
+              match d, s_lock st with
+              | Guarded, None =>
+                  mkState (reset_reg (s_sh st)) (Some t) (remove_tid t (s_waitq st))
+                          (set_nth (s_thr st) t (with_pc th PLookup))
+              | _, _ => st
+              end
           | PEnter =>
               match d with
               | Unguarded => mkState (reset_reg (s_sh st)) (s_lock st) (s_waitq st) (set_nth (s_thr st) t (with_pc th PLookup))
@@ -312,12 +319,92 @@ Definition run_from (d : disc) (k : nat) (g : graph) (sched : list tid) (st : st
 Definition run (d : disc) (k : nat) (g : graph) (calls : list (list name)) (sched : list tid) : state :=
   run_from d k g sched (init calls).
 
+(* ---- a mutex that hands the lock over ---------------------------------------------- *)
+(* A grant policy looks at the state right after an Unlock and names the goroutine that
+   is given the lock at once (None: nobody, the lock stays free).  ANY function is a
+   policy; [fifo_grant] is the one the forced schedules of the harness exhibit (the Go
+   runtime wakes the longest-waiting goroutine, and every other goroutine is parked).
+   One step of a machine with hand-off = one or two steps of the machine above. *)
+Definition grant_policy := state -> option tid.
+
+Definition fifo_grant : grant_policy := fun st => hd_error (s_waitq st).
+
+Definition released_by (t : tid) (st st' : state) : bool :=
+  match s_lock st, s_lock st' with
+  | Some h, None => Nat.eqb h t
+  | _, _ => false
+  end.
+
+(* the steps of the machine that one step of thread t stands for under the policy *)
+Definition hsched (gr : grant_policy) (d : disc) (k : nat) (g : graph) (t : tid) (st : state) : list tid :=
+  let st' := gstep d k g t st in
+  if released_by t st st' then match gr st' with Some w => [t; w] | None => [t] end else [t].
+
+Definition hstep (gr : grant_policy) (d : disc) (k : nat) (g : graph) (t : tid) (st : state) : state :=
+  run_from d k g (hsched gr d k g t st) st.
+
+Definition hrun_from (gr : grant_policy) (d : disc) (k : nat) (g : graph) (sched : list tid) (st : state) : state :=
+  fold_left (fun s t => hstep gr d k g t s) sched st.
+
+(* the schedule of the machine above that a schedule of the hand-off machine stands for *)
+Fixpoint expand (gr : grant_policy) (d : disc) (k : nat) (g : graph) (sched : list tid) (st : state) : list tid :=
+  match sched with
+  | [] => []
+  | t :: r => hsched gr d k g t st ++ expand gr d k g r (hstep gr d k g t st)
+  end.
+
+Definition hrun (gr : grant_policy) (d : disc) (k : nat) (g : graph) (calls : list (list name)) (sched : list tid) : state :=
+  hrun_from gr d k g sched (init calls).
+
 (* results of every thread, in call order *)
 Definition results (st : state) : list (list result) :=
   map (fun th => rev (t_results th)) (s_thr st).
 
 Definition all_done (st : state) : bool :=
   forallb (fun th => match t_calls th with [] => true | _ => false end) (s_thr st).
+
+(* ---- which schema object a call hands to its caller -------------------------------- *)
+(* the RefSchema cell whose To the returning call hands out (Go: the pointer `built.To` /
+   `placeholder.To`; two calls return the same object iff they return the same cell's To) *)
+Definition result_cell (n : name) (sh : shared) (p : pc) : option cellid :=
+  match p with
+  | PLookup => lookup (cmap sh) n
+  | PReturn c => Some c
+  | _ => None
+  end.
+
+(* (thread, type asked for, cell handed out) if this step of t completes a call with a schema *)
+Definition gstep_ret (k : nat) (g : graph) (t : tid) (st : state) : option (tid * name * cellid) :=
+  match nth_error (s_thr st) t with
+  | None => None
+  | Some th =>
+      match t_calls th with
+      | [] => None
+      | n :: _ =>
+          match t_pc th with
+          | PEnter | PWait => None
+          | p =>
+              match snd (lstep k g n (s_sh st) p) with
+              | inr (ROk _) =>
+                  match result_cell n (s_sh st) p with
+                  | Some c => Some (t, n, c)
+                  | None => None
+                  end
+              | _ => None
+              end
+          end
+      end
+  end.
+
+(* the objects handed out along a run, in order of completion *)
+Fixpoint rets_from (d : disc) (k : nat) (g : graph) (sched : list tid) (st : state) : list (tid * name * cellid) :=
+  match sched with
+  | [] => []
+  | t :: r =>
+      match gstep_ret k g t st with Some x => [x] | None => [] end ++ rets_from d k g r (gstep d k g t st)
+  end.
+
+Definition rets d k g calls sched := rets_from d k g sched (init calls).
 
 (* ---- the hook a thread is parked at, as the harness observes it --------- *)
 Definition pc_label (th : thread) : N :=
@@ -349,16 +436,32 @@ Fixpoint run_trace_from (d : disc) (k : nat) (g : graph) (sched : list tid) (st 
 
 Definition run_trace d k g calls sched := run_trace_from d k g sched (init calls).
 
+(* the same for the hand-off machine: what the harness sees of a forced schedule *)
+Fixpoint hrun_trace_from (gr : grant_policy) (d : disc) (k : nat) (g : graph) (sched : list tid) (st : state) : state * list N :=
+  match sched with
+  | [] => (st, [])
+  | t :: r =>
+      let st' := hstep gr d k g t st in
+      let (st'', tr) := hrun_trace_from gr d k g r st' in
+      (st'', label_of st' t :: tr)
+  end.
+
+Definition hrun_trace gr d k g calls sched := hrun_trace_from gr d k g sched (init calls).
+
 (* ---- vocabulary of the statements about schedules ------------------------------------ *)
 (* a thread at the entry of Schema, or queued on the lock: not inside the critical section *)
 Definition outside (p : pc) : Prop := p = PEnter \/ p = PWait.
 
-(* thread t has a call to make and is not queued on the lock *)
+(* thread t has a call to make and is not blocked: it is not inside Lock(), or the lock is free *)
 Definition can_step (st : state) (t : tid) : Prop :=
-  exists th n rest, nth_error (s_thr st) t = Some th /\ t_calls th = n :: rest /\ t_pc th <> PWait.
+  exists th n rest, nth_error (s_thr st) t = Some th /\ t_calls th = n :: rest /\
+                    (t_pc th <> PWait \/ s_lock st = None).
 
-(* a round schedules every thread at least once *)
+(* THE scheduler assumption of the completion theorem — weak fairness: the schedule is a
+   sequence of rounds, and a round schedules every thread at least once (in any order, any
+   number of times).  Nothing is assumed about who gets a free lock. *)
 Definition covers (nt : nat) (round : list tid) : Prop := forall t, t < nt -> In t round.
+Definition weakly_fair (nt : nat) (rounds : list (list tid)) : Prop := Forall (covers nt) rounds.
 
 (* the cost of registering a type: one step to insert it, two per reference, two to link/return *)
 Definition node_cost (g : graph) (n : name) : nat := 2 * length (refs g n) + 3.
@@ -375,7 +478,7 @@ Definition universe_cost (g : graph) (calls : list (list name)) : nat :=
 (* the number of fair rounds that suffices: a failed call may have registered (and then
    taken out again) the whole universe, so every call is charged for it *)
 Definition fuel_bound (g : graph) (calls : list (list name)) : nat :=
-  universe_cost g calls + (3 + universe_cost g calls) * length (concat calls).
+  universe_cost g calls + (4 + universe_cost g calls) * length (concat calls).
 
 (* ---- what a call returns when it is run alone on a fresh cache --------------------- *)
 Definition result_solo (k : nat) (g : graph) (n : name) : result :=
